@@ -166,7 +166,7 @@ WF(CT, t) ==
                          /\ ai.k \notin {"K", "P"}
                          /\ (ai.k = "W" /\ ai.n = "out" => p.v # "in")
                          /\ (ai.k = "W" /\ ai.n = "in"  => p.v # "out")
-                         /\ (p.b # <<>> /\ (ai.k # "W" \/ ai.n = "out") =>
+                         /\ (p.b # <<>> /\ (ai.k # "W" \/ ai.n \in {"out", "in"}) =>     \* ("in L": L itself must fit, or the type is empty)
                                SubTop(CT, IF ai.k = "W" THEN ai.a[1] ELSE ai,
                                           Subst(p.b[1], [x \in {q \in ParamNames(CT, t.n) : t.a[ParamIndex(CT, t.n, q)].k # "W"} |->
                                                              t.a[ParamIndex(CT, t.n, x)]])))
